@@ -65,27 +65,35 @@ theorem mkNode_rep {kvs : List (K × V)} {kids : List C} (h1 : kvs.length ≤ ke
   · subst h; simp
   · omega
 
-/-- the family invariant -/
-def AllClean (fam : List (SNode K V C)) : Prop := ∀ x ∈ fam, Clean x
+/-- the family invariant: every object that has not been unlinked is clean -/
+def AllClean (fam : Fam K V C) : Prop := ∀ x, some x ∈ fam → Clean x
 
-theorem AllClean.get {fam : List (SNode K V C)} (h : AllClean fam) {i : Nat} {x} (hx : fam[i]? = some x) : Clean x :=
-  h x (List.mem_of_getElem? hx)
+theorem AllClean.get {fam : Fam K V C} (h : AllClean fam) {i : Nat} {x} (hx : getNode fam i = some x) : Clean x := by
+  unfold getNode at hx
+  cases hi : fam[i]? with
+  | none => simp [hi] at hx
+  | some o =>
+    simp [hi] at hx
+    subst hx
+    exact h x (List.mem_of_getElem? hi)
 
-theorem AllClean.set {fam : List (SNode K V C)} (h : AllClean fam) (i : Nat) {x} (hx : Clean x) : AllClean (fam.set i x) := by
+theorem AllClean.set {fam : Fam K V C} (h : AllClean fam) (i : Nat) {x} (hx : Clean x) : AllClean (fam.set i (some x)) := by
   intro y hy
   rcases List.mem_or_eq_of_mem_set hy with h1 | h1
   · exact h y h1
-  · subst h1; exact hx
+  · cases h1; exact hx
 
-theorem AllClean.erase {fam : List (SNode K V C)} (h : AllClean fam) (i : Nat) : AllClean (fam.eraseIdx i) :=
-  fun y hy => h y (List.mem_of_mem_eraseIdx hy)
+theorem AllClean.erase {fam : Fam K V C} (h : AllClean fam) (i : Nat) : AllClean (fam.set i none) := by
+  intro y hy
+  rcases List.mem_or_eq_of_mem_set hy with h1 | h1
+  · exact h y h1
+  · cases h1
 
-theorem AllClean.snoc {fam : List (SNode K V C)} (h : AllClean fam) {x} (hx : Clean x) : AllClean (fam ++ [x]) := by
+theorem AllClean.snoc {fam : Fam K V C} (h : AllClean fam) {x} (hx : Clean x) : AllClean (fam ++ [some x]) := by
   intro y hy
   rcases List.mem_append.mp hy with h1 | h1
   · exact h y h1
   · simp at h1; subst h1; exact hx
-
 
 /-- every zeroing / clearing / shifting statement of `btree.go` is present -/
 abbrev ZeroingPresent : Prop :=
@@ -113,10 +121,10 @@ theorem inner_of_not_leaf {x : SNode K V C} {kvs kids} (hr : NodeRep x kvs kids)
   · exact absurd (hr.isLeaf_iff.mpr h1) h
   · exact h1
 
-theorem step_leafInsert (f3 : TreeSlots.leafInsertBumpsN = true) {fam fam' : List (SNode K V C)} (h : AllClean fam)
+theorem step_leafInsert (f3 : TreeSlots.leafInsertBumpsN = true) {fam fam' : Fam K V C} (h : AllClean fam)
     (i idx : Nat) (k : K) (v : V) (hop : applyOp fam (.leafInsert i idx k v) = some fam') : AllClean fam' := by
   unfold applyOp at hop
-  cases hx : fam[i]? with
+  cases hx : getNode fam i with
   | none => simp [hx] at hop
   | some x =>
     obtain ⟨kvs, kids, hr⟩ := h.get hx
@@ -131,10 +139,10 @@ theorem step_leafInsert (f3 : TreeSlots.leafInsertBumpsN = true) {fam fam' : Lis
       exact h.set i ⟨_, _, hr'⟩
     · simp [hx, hg] at hop
 
-theorem step_setValue {fam fam' : List (SNode K V C)} (h : AllClean fam)
+theorem step_setValue {fam fam' : Fam K V C} (h : AllClean fam)
     (i idx : Nat) (v : V) (hop : applyOp fam (.setValue i idx v) = some fam') : AllClean fam' := by
   unfold applyOp at hop
-  cases hx : fam[i]? with
+  cases hx : getNode fam i with
   | none => simp [hx] at hop
   | some x =>
     obtain ⟨kvs, kids, hr⟩ := h.get hx
@@ -147,10 +155,10 @@ theorem step_setValue {fam fam' : List (SNode K V C)} (h : AllClean fam)
       exact h.set i ⟨_, _, hr'⟩
     · simp [hx, hg] at hop
 
-theorem step_replaceEntry {fam fam' : List (SNode K V C)} (h : AllClean fam)
+theorem step_replaceEntry {fam fam' : Fam K V C} (h : AllClean fam)
     (i idx : Nat) (k : K) (v : V) (hop : applyOp fam (.replaceEntry i idx k v) = some fam') : AllClean fam' := by
   unfold applyOp at hop
-  cases hx : fam[i]? with
+  cases hx : getNode fam i with
   | none => simp [hx] at hop
   | some x =>
     obtain ⟨kvs, kids, hr⟩ := h.get hx
@@ -165,10 +173,10 @@ theorem step_replaceEntry {fam fam' : List (SNode K V C)} (h : AllClean fam)
 
 theorem step_leafRemove (f1 : TreeSlots.removeOneShifts = true) (f2 : TreeSlots.removeOneZeroesLast = true)
     (f4 : TreeSlots.leafRemoveShiftsKeys = true) (f5 : TreeSlots.leafRemoveShiftsValues = true)
-    (f6 : TreeSlots.leafRemoveDecN = true) {fam fam' : List (SNode K V C)} (h : AllClean fam)
+    (f6 : TreeSlots.leafRemoveDecN = true) {fam fam' : Fam K V C} (h : AllClean fam)
     (i idx : Nat) (hop : applyOp fam (.leafRemove i idx) = some fam') : AllClean fam' := by
   unfold applyOp at hop
-  cases hx : fam[i]? with
+  cases hx : getNode fam i with
   | none => simp [hx] at hop
   | some x =>
     obtain ⟨kvs, kids, hr⟩ := h.get hx
@@ -184,10 +192,10 @@ theorem step_leafRemove (f1 : TreeSlots.removeOneShifts = true) (f2 : TreeSlots.
     · simp [hx, hg] at hop
 
 theorem step_removeRightmost (f7 : TreeSlots.removeRightmostZeroesKey = true) (f8 : TreeSlots.removeRightmostZeroesValue = true)
-    (f9 : TreeSlots.removeRightmostDecN = true) {fam fam' : List (SNode K V C)} (h : AllClean fam)
+    (f9 : TreeSlots.removeRightmostDecN = true) {fam fam' : Fam K V C} (h : AllClean fam)
     (i : Nat) (hop : applyOp fam (.removeRightmost i) = some fam') : AllClean fam' := by
   unfold applyOp at hop
-  cases hx : fam[i]? with
+  cases hx : getNode fam i with
   | none => simp [hx] at hop
   | some x =>
     obtain ⟨kvs, kids, hr⟩ := h.get hx
@@ -207,11 +215,11 @@ theorem step_removeRightmost (f7 : TreeSlots.removeRightmostZeroesKey = true) (f
 theorem step_split (f10 : TreeSlots.overfillClearsKeys = true) (f11 : TreeSlots.overfillClearsValues = true)
     (f12 : TreeSlots.overfillClearsChildren = true) (f13 : TreeSlots.amalgamKeyDec = true)
     (f14 : TreeSlots.amalgamValueDec = true) (f15 : TreeSlots.amalgamChildDec = true)
-    {fam fam' : List (SNode K V C)} (h : AllClean fam)
+    {fam fam' : Fam K V C} (h : AllClean fam)
     (i e : Nat) (k : K) (v : V) (afterK : Option C)
     (hop : applyOp fam (.split i e k v afterK) = some fam') : AllClean fam' := by
   unfold applyOp at hop
-  cases hx : fam[i]? with
+  cases hx : getNode fam i with
   | none => simp [hx] at hop
   | some x =>
     obtain ⟨kvs, kids, hr⟩ := h.get hx
@@ -235,7 +243,7 @@ theorem step_split (f10 : TreeSlots.overfillClearsKeys = true) (f11 : TreeSlots.
           exact (h.set i ⟨_, _, hl'⟩).snoc ⟨_, _, hr'⟩
     · simp [hx, hg] at hop
 
-theorem step_newRoot {fam fam' : List (SNode K V C)} (h : AllClean fam) (k : K) (v : V) (l r : C)
+theorem step_newRoot {fam fam' : Fam K V C} (h : AllClean fam) (k : K) (v : V) (l r : C)
     (hop : applyOp fam (.newRoot k v l r) = some fam') : AllClean fam' := by
   unfold applyOp at hop
   obtain ⟨x', hx', hr'⟩ := newRootNode_rep (K := K) (V := V) k v l r
@@ -243,10 +251,10 @@ theorem step_newRoot {fam fam' : List (SNode K V C)} (h : AllClean fam) (k : K) 
   subst hop
   exact h.snoc ⟨_, _, hr'⟩
 
-theorem step_parentInsert (f16 : TreeSlots.parentInsertBumpsN = true) {fam fam' : List (SNode K V C)} (h : AllClean fam)
+theorem step_parentInsert (f16 : TreeSlots.parentInsertBumpsN = true) {fam fam' : Fam K V C} (h : AllClean fam)
     (i idx : Nat) (k : K) (v : V) (r : C) (hop : applyOp fam (.parentInsert i idx k v r) = some fam') : AllClean fam' := by
   unfold applyOp at hop
-  cases hx : fam[i]? with
+  cases hx : getNode fam i with
   | none => simp [hx] at hop
   | some x =>
     obtain ⟨kvs, kids, hr⟩ := h.get hx
@@ -260,7 +268,18 @@ theorem step_parentInsert (f16 : TreeSlots.parentInsertBumpsN = true) {fam fam' 
       exact h.set i ⟨_, _, hr'⟩
     · simp [hx, hg] at hop
 
-theorem step_drop {fam fam' : List (SNode K V C)} (h : AllClean fam) (i : Nat)
+theorem step_setParent {fam fam' : Fam K V C} (h : AllClean fam) (i : Nat) (p : Option C)
+    (hop : applyOp fam (.setParent i p) = some fam') : AllClean fam' := by
+  unfold applyOp at hop
+  cases hx : getNode fam i with
+  | none => simp [hx] at hop
+  | some x =>
+    obtain ⟨kvs, kids, hr⟩ := h.get hx
+    simp [hx] at hop
+    subst hop
+    exact h.set i ⟨kvs, kids, ⟨hr.hn, hr.hkeys, hr.hvals, hr.hkids, hr.hshape⟩⟩
+
+theorem step_drop {fam fam' : Fam K V C} (h : AllClean fam) (i : Nat)
     (hop : applyOp fam (.drop i) = some fam') : AllClean fam' := by
   simp [applyOp] at hop
   subst hop
@@ -271,16 +290,16 @@ theorem step_mergeTwo (f1 : TreeSlots.removeOneShifts = true) (f2 : TreeSlots.re
     (f17 : TreeSlots.mergeRemovesSepKey = true) (f18 : TreeSlots.mergeRemovesSepValue = true)
     (f19 : TreeSlots.mergeRemovesRightChild = true) (f20 : TreeSlots.mergeParentDecN = true)
     (f21 : TreeSlots.mergeZeroesRight = true)
-    {fam fam' : List (SNode K V C)} (h : AllClean fam) (p l r idx : Nat)
+    {fam fam' : Fam K V C} (h : AllClean fam) (p l r idx : Nat)
     (hop : applyOp fam (.mergeTwo p l r idx) = some fam') : AllClean fam' := by
   unfold applyOp at hop
-  cases hp : fam[p]? with
+  cases hp : getNode fam p with
   | none => simp [hp] at hop
   | some xp =>
-  cases hl : fam[l]? with
+  cases hl : getNode fam l with
   | none => simp [hp, hl] at hop
   | some xl =>
-  cases hr : fam[r]? with
+  cases hr : getNode fam r with
   | none => simp [hp, hl, hr] at hop
   | some xr =>
     obtain ⟨pkvs, pkids, rp⟩ := h.get hp
@@ -304,16 +323,16 @@ theorem step_rotateRight (f22 : TreeSlots.rotateRightZeroesKey = true) (f23 : Tr
     (f24 : TreeSlots.rotateRightZeroesChild = true) (f25 : TreeSlots.rotateRightDecLeft = true)
     (f26 : TreeSlots.rotateRightInsertsKey = true) (f27 : TreeSlots.rotateRightInsertsValue = true)
     (f28 : TreeSlots.rotateRightInsertsChild = true)
-    {fam fam' : List (SNode K V C)} (h : AllClean fam) (p l r idx : Nat)
+    {fam fam' : Fam K V C} (h : AllClean fam) (p l r idx : Nat)
     (hop : applyOp fam (.rotateRight p l r idx) = some fam') : AllClean fam' := by
   unfold applyOp at hop
-  cases hp : fam[p]? with
+  cases hp : getNode fam p with
   | none => simp [hp] at hop
   | some xp =>
-  cases hl : fam[l]? with
+  cases hl : getNode fam l with
   | none => simp [hp, hl] at hop
   | some xl =>
-  cases hr : fam[r]? with
+  cases hr : getNode fam r with
   | none => simp [hp, hl, hr] at hop
   | some xr =>
     obtain ⟨pkvs, pkids, rp⟩ := h.get hp
@@ -338,16 +357,16 @@ theorem step_rotateRight (f22 : TreeSlots.rotateRightZeroesKey = true) (f23 : Tr
 theorem step_rotateLeft (f1 : TreeSlots.removeOneShifts = true) (f2 : TreeSlots.removeOneZeroesLast = true)
     (f29 : TreeSlots.rotateLeftShiftsKeys = true) (f30 : TreeSlots.rotateLeftShiftsValues = true)
     (f31 : TreeSlots.rotateLeftShiftsChildren = true)
-    {fam fam' : List (SNode K V C)} (h : AllClean fam) (p l r idx : Nat)
+    {fam fam' : Fam K V C} (h : AllClean fam) (p l r idx : Nat)
     (hop : applyOp fam (.rotateLeft p l r idx) = some fam') : AllClean fam' := by
   unfold applyOp at hop
-  cases hp : fam[p]? with
+  cases hp : getNode fam p with
   | none => simp [hp] at hop
   | some xp =>
-  cases hl : fam[l]? with
+  cases hl : getNode fam l with
   | none => simp [hp, hl] at hop
   | some xl =>
-  cases hr : fam[r]? with
+  cases hr : getNode fam r with
   | none => simp [hp, hl, hr] at hop
   | some xr =>
     obtain ⟨pkvs, pkids, rp⟩ := h.get hp
@@ -370,7 +389,7 @@ theorem step_rotateLeft (f1 : TreeSlots.removeOneShifts = true) (f2 : TreeSlots.
     · simp [hp, hl, hr, hg] at hop
 
 /-- every enabled node-level step keeps the family clean -/
-theorem applyOp_clean (hf : ZeroingPresent) {fam fam' : List (SNode K V C)} (h : AllClean fam) (op : NodeOp K V C)
+theorem applyOp_clean (hf : ZeroingPresent) {fam fam' : Fam K V C} (h : AllClean fam) (op : NodeOp K V C)
     (hop : applyOp fam op = some fam') : AllClean fam' := by
   obtain ⟨f1, f2, f3, f4, f5, f6, f7, f8, f9, f10, f11, f12, f13, f14, f15, f16, f17, f18, f19, f20, f21, f22, f23, f24,
     f25, f26, f27, f28, f29, f30, f31⟩ := hf
@@ -386,9 +405,10 @@ theorem applyOp_clean (hf : ZeroingPresent) {fam fam' : List (SNode K V C)} (h :
   | mergeTwo p l r idx => exact step_mergeTwo f1 f2 f17 f18 f19 f20 f21 h p l r idx hop
   | rotateRight p l r idx => exact step_rotateRight f22 f23 f24 f25 f26 f27 f28 h p l r idx hop
   | rotateLeft p l r idx => exact step_rotateLeft f1 f2 f29 f30 f31 h p l r idx hop
+  | setParent i p => exact step_setParent h i p hop
   | drop i => exact step_drop h i hop
 
-theorem runOps_clean (hf : ZeroingPresent) : ∀ (ops : List (NodeOp K V C)) {fam fam' : List (SNode K V C)},
+theorem runOps_clean (hf : ZeroingPresent) : ∀ (ops : List (NodeOp K V C)) {fam fam' : Fam K V C},
     AllClean fam → runOps fam ops = some fam' → AllClean fam'
   | [], fam, fam', h, hr => by simp [runOps] at hr; subst hr; exact h
   | op :: ops, fam, fam', h, hr => by
